@@ -85,6 +85,17 @@ for _p, _share in (("C02", 0.2), ("C08", 0.3), ("C09", 0.25), ("C12", 0.25), ("C
     PLANS[_p]["rule"] += RACE_NOTE
     PLANS[_p]["assumptions"] = PLANS[_p]["assumptions"] + ["race stage: Go race detector semantics (happens-before over sync operations; simnet's mutex/cond stands in for the kernel's socket synchronisation)"]
 
+# application stage: the real program.Init()/Start() of apps/nsqd configured by flags and a TOML file
+APP_NOTE = "; a share of the budget runs the application world: the real program.Init()/Start() of apps/nsqd (flag set, TOML config file, config.Validate, options.Resolve, nsqd.New, LoadMetadata, Main) is given %s as command-line flags, as config-file keys, or both with the flags winning, and the daemon must enforce exactly the configured values"
+for _p, _share, _what in (("C09", 0.1, "its limits (max-msg-size, max-body-size, max-rdy-count, max-req-timeout, max-heartbeat-interval, max-output-buffer-size/-timeout, max-msg-timeout, max-deflate-level; each probed at the value and one past it)"),
+                          ("C11", 0.15, "its TLS requirement (true/false/tcp-https/1/0, client certificate policy), HTTPS listener and auth server (probed with a plaintext PUB and a plaintext HTTP publish)")):
+    _st = PLANS[_p]["stages"]
+    for _s in _st:
+        _s["share"] = _s["share"] * (1.0 - _share)
+    _st.append(dict(bin="nsqd", world="nsqdapp", prop=_p, share=_share))
+    PLANS[_p]["rule"] += APP_NOTE % _what
+    PLANS[_p]["components"] = dict(real=PLANS[_p]["components"]["real"] + ["apps/nsqd: program.Init/Start (nsqdFlagSet, toml.DecodeFile, config.Validate, options.Resolve)"], stub=PLANS[_p]["components"]["stub"])
+
 # C12's race stage only counts races that involve the id generator (other races belong to C02/C08/C09)
 PLANS["C12"]["race_match"] = r"guid\.go|GenerateID|GUID|guids"
 
@@ -100,10 +111,10 @@ PLANS["C20"] = dict(stages=[dict(bin="to_nsq", world="tonsq", prop="C20", share=
     components=dict(real=REAL_APP + ["apps/to_nsq, apps/nsq_to_nsq, apps/nsq_to_http: the real main() (flag parsing on a fresh FlagSet bound to the package's flag variables, option validation, producers/consumers, responder, signal handling)", "github.com/bitly/go-hostpool, timer_metrics"], stub=STUB_Q + ["stub destination nsqds (minimal V2 server in the harness)", "stub HTTP endpoints (net/http handlers in the harness)", "simos.Stdin reader with short reads"]),
     assumptions=ASSUME, crash_property="C20")
 
-WORLD_BIN = {"adminapp": "nsqadmin", "tonsq": "to_nsq", "nsq2nsq": "nsq_to_nsq", "nsq2http": "nsq_to_http", "tofile": "nsq_to_file", "policy": "world", "queue": "world", "lookupd": "world", "proto": "world", "meta": "world", "cluster": "world", "admin": "world"}
+WORLD_BIN = {"nsqdapp": "nsqd", "adminapp": "nsqadmin", "tonsq": "to_nsq", "nsq2nsq": "nsq_to_nsq", "nsq2http": "nsq_to_http", "tofile": "nsq_to_file", "policy": "world", "queue": "world", "lookupd": "world", "proto": "world", "meta": "world", "cluster": "world", "admin": "world"}
 SELFTEST_WORLDS = [("queue", "ALL"), ("queue", "C08"), ("queue", "C05"), ("queue", "C12"), ("lookupd", "C14"), ("lookupd", "C15"), ("proto", "C09"), ("proto", "C10"),
-                   ("policy", "C11"), ("meta", "C06"), ("cluster", "C16"), ("admin", "C17"), ("admin", "C18"), ("adminapp", "C17"), ("tofile", "C19"), ("tonsq", "C20"), ("nsq2nsq", "C20"), ("nsq2http", "C20")]
-ALL_TARGETS = ["world", "world_race", "nsq_to_file", "to_nsq", "nsq_to_nsq", "nsq_to_http", "nsqadmin"]
+                   ("policy", "C11"), ("meta", "C06"), ("cluster", "C16"), ("admin", "C17"), ("admin", "C18"), ("adminapp", "C17"), ("nsqdapp", "C09"), ("nsqdapp", "C11"), ("tofile", "C19"), ("tonsq", "C20"), ("nsq2nsq", "C20"), ("nsq2http", "C20")]
+ALL_TARGETS = ["world", "world_race", "nsq_to_file", "to_nsq", "nsq_to_nsq", "nsq_to_http", "nsqadmin", "nsqd"]
 
 SIMNOTE = ("assumes the trusted base of DESIGN.md 6: Go 1.26.8 synctest + five runtime patches, the two-rule AST rewriter, simnet/simos fidelity, "
            "one-P atomicity between synchronisation operations; oracles see the wire only (frames, HTTP, /stats, data directory)")
